@@ -5,7 +5,7 @@ import numpy as np
 from .. import core, gen
 
 ID = 'C20'
-FOUNDATIONS = ['harness.foundation.concurrent', 'harness.foundation.soak']   # the property's own functions under concurrent calls (validation; proofs in C12)
+FOUNDATIONS = ['harness.foundation.pybody']   # stretchCore / capHi (stretchList) are tied to the current body of stretch.stretch
 LEVEL = 'proof'
 RULE = ('corpus; RGB lattice with 52 steps per channel (thorough: all 140608 triples, quick: a seeded slice) as block '
         'cases; full 0..255 ramps per channel (monotonicity on integer-valued channels); boundary values around the '
